@@ -529,7 +529,7 @@ def gen_document_recipe(rng, python_form=True, alias_p=0.35):
     """a nested document recipe; with probability alias_p one container object (dict or list) is reachable
     from two places, as YAML anchors/merges or a Python description built around a shared sub-dictionary produce"""
     doc = gen_document(rng, python_form=python_form)
-    if not python_form and rng.random() < 0.08:
+    if not python_form and rng.random() < 0.15:
         # a notation the library must reject (negative magnitude), nested: conversion fails part-way
         doc[rng.choice(["bad", "zz"])] = {"inner": [1, {"abs": -2.0, "phase": 0.5}]}
     if rng.random() < 0.12:
